@@ -226,6 +226,7 @@ func runC19(tier string) int {
 	nontrivial = len(ntSigs)
 
 	violations := 0
+	unreproduced := 0
 	for i := range ins {
 		if len(byInput[i]) <= 1 {
 			continue
@@ -236,6 +237,11 @@ func runC19(tier string) int {
 			continue
 		}
 		v := c19Minimise(tw, seed, i, ins[i], byInput[i], sessions)
+		if v == nil {
+			unreproduced++
+			fmt.Printf("NOTE: C19 input %d (%s): a difference between runs did not reproduce in fresh processes; dropped\n", i, ins[i].Name)
+			continue
+		}
 		rep.add(v)
 	}
 
@@ -351,6 +357,11 @@ func c19Minimise(tw *toolWorld, seed uint64, idx int, in toolInput, sigs map[str
 				}
 			}
 		}
+	}
+	if kind == "unreproduced" {
+		// neither the two cases alone nor their sessions reproduce the difference in
+		// fresh processes: nothing replayable, nothing to report
+		return nil
 	}
 	if kind == "map-order" {
 		// 3. reduce the grammar line by line (both target cases carry the same text)
